@@ -2,6 +2,9 @@ import TwistedProps.C15.Stream
 import TwistedProps.C15.Frozen
 import TwistedProps.C15.Liveness
 import TwistedProps.C15.Written
+import TwistedProps.C15.Core0
+import TwistedProps.C15.Armed
+import TwistedProps.C15.ReqResp
 /-!
 C15 — every reactor delivers TCP byte streams intact and reports loss exactly once.
 
@@ -11,8 +14,10 @@ Model: `TwistedModel/Transport/Tcp.lean` (tcp.Connection + abstract.FileDescript
 loseWriteConnection, abortConnection, pause/resumeProducing), readiness reports with arbitrary
 IN/OUT/HUP bits and arbitrary partial `send`/`recv` sizes (0 included), and delayed calls, in any order.
 The theorems below quantify over ALL schedules, all kernel parameters (SEND_LIMIT, recv size, queue
-capacity), both protocol kinds (plain / IHalfCloseableProtocol with any `readConnectionLost` reaction)
-— no size bound, no discipline assumed, misuse included.
+capacity), both protocol kinds (plain / IHalfCloseableProtocol), and ANY protocol behaviour: what
+`readConnectionLost`, `writeConnectionLost` and — re-entrantly, inside `doRead`, before the `doWrite` of the same
+IN|OUT readiness report — `dataReceived` call on the transport (scripts `ra rb`, `wa wb`, `da db`: any transport
+calls, close operations included) — no size bound, no discipline assumed, misuse included.
 
 Proved at full strength (safety):
   * `stream_accounting`            every byte accepted by write()/writeSequence() is, in order and
@@ -25,6 +30,12 @@ Proved at full strength (safety):
   * `connectionLost_at_most_once`  per side, whatever happens
   * `no_data_after_connectionLost` after connectionLost neither dataReceived nor a second
                                    connectionLost reaches the protocol
+  * `close_never_forgotten`        while loseConnection is pending on a live, non-aborting transport its writer is
+                                   registered (and its reader is not) — in every state, re-entrant calls included
+  * `done_from_doWrite_is_connectionLost`  a CONNECTION_DONE answered by the doWrite part of ANY readiness report
+                                   (IN|OUT included, loseConnection possibly issued by the dataReceived of that very
+                                   report) is dispatched as connectionLost(ConnectionDone): never as a read-side
+                                   half-close, socket closed at once
 
 Proved at full strength (liveness / clean close), over every schedule that follows the ONE-CLOSER DISCIPLINE
 (`pre ++ [close operation of side w] ++ post`: before the close only side `w` writes, both sides may
@@ -56,17 +67,36 @@ half-close by writing a reply and then loseConnection (`replyOk`)), kernel param
                                    after a half-close the peer holds `written w pre` (`halfClose_delivers_written`)
   * `done_from_doWrite_only_after_flush`  doWrite reports CONNECTION_DONE only when loseConnection was requested
                                    and this call emptied the buffers
-Nothing of the statement is left to the correspondence alone; what the model's kernel/poller assume about Linux
+Close requested RE-ENTRANTLY from dataReceived (request/response):
+  * `closeFromDataReceived_clean_close_partial`  from the closing situation `RR` (requester flushed, its last bytes
+                                   unread in the responder's queue, the responder's dataReceived armed to write a last
+                                   reply and call loseConnection, earlier replies possibly still pending) ONE readiness
+                                   report with IN and any other bits, then any reports: the fair completion is quiescent,
+                                   ConnectionDone exactly once on both sides, each side has exactly what the other wrote.
+                                   PARTIAL: `RR` is a hypothesis on the state reached by `pre`; not proved: that the
+                                   request/response pre-phase (requests by write(), replies from dataReceived at lower
+                                   thresholds) establishes it.  The one-closer theorems above are proved on the
+                                   reaction-free transition functions (`C15/Base0.lean`, `C15/Core0.lean`) and transported:
+                                   on `start p ha hb ra rb` (no dataReceived / writeConnectionLost script) they coincide
+                                   with the model on every schedule (`run_eq_run0`).
+Apart from that pre-phase, nothing of the statement is left to the correspondence alone; what the model's kernel/poller assume about Linux
 TCP and the four doIteration loops is tested by the real-socket half of `harness/corr/C15.py`.
 -/
 namespace TwistedProps.C15
 open Twisted.Transport.Tcp
 
-/-- any two freshly connected transports, any kernel parameters -/
-abbrev start (p : Params) (ha hb : Bool) (ra rb : List AppOp) : Sys :=
-  Sys.init p (Conn.fresh ha ra) (Conn.fresh hb rb)
+/-- a protocol's dataReceived script: `(threshold, transport calls)` entries (see `Tcp.dataReceived`) -/
+abbrev Script := List (Nat × List AppOp)
 
-theorem good_start (p : Params) (ha hb : Bool) (ra rb : List AppOp) : Good (start p ha hb ra rb) := by
+/-- any two freshly connected transports, any kernel parameters; protocol behaviour: IHalfCloseableProtocol or not
+    (`ha hb`), what readConnectionLost calls (`ra rb`), what dataReceived calls RE-ENTRANTLY (`da db`), what
+    writeConnectionLost calls (`wa wb`).  `start p ha hb ra rb` is the system whose protocols react to
+    readConnectionLost only (the one-closer discipline). -/
+abbrev start (p : Params) (ha hb : Bool) (ra rb : List AppOp) (da db : Script := []) (wa wb : List AppOp := []) : Sys :=
+  Sys.init p (Conn.fresh ha ra da wa) (Conn.fresh hb rb db wb)
+
+theorem good_start (p : Params) (ha hb : Bool) (ra rb : List AppOp) (da db : Script) (wa wb : List AppOp) :
+    Good (start p ha hb ra rb da db wa wb) := by
   have f : ∀ (c o : Conn) (k : Sock), c.sent = [] → o.received = [] → k.inq = [] → Flow c o k :=
     fun c o k h1 h2 h3 => ⟨[], by simp [h1, h2, h3], Or.inr rfl⟩
   refine ⟨⟨?_, ?_, f _ _ _ rfl rfl rfl, f _ _ _ rfl rfl rfl⟩, ⟨?_, ?_, f _ _ _ rfl rfl rfl, f _ _ _ rfl rfl rfl⟩⟩ <;>
@@ -75,48 +105,52 @@ theorem good_start (p : Params) (ha hb : Bool) (ra rb : List AppOp) : Good (star
 /-- **Stream accounting.**  In every state of every run, for each direction: the bytes accepted from
     the application are exactly (delivered ++ in the peer's receive queue ++ discarded ++ still
     buffered), in this order; bytes are discarded only when the peer's socket is closed. -/
-theorem stream_accounting (p : Params) (ha hb : Bool) (ra rb : List AppOp) (evs : List Ev) :
-    let s := run (start p ha hb ra rb) evs
+theorem stream_accounting (p : Params) (ha hb : Bool) (ra rb : List AppOp) (da db : Script) (wa wb : List AppOp)
+    (evs : List Ev) :
+    let s := run (start p ha hb ra rb da db wa wb) evs
     (∃ rest, s.a.accepted = s.b.received ++ s.kb.inq ++ rest ++ pending s.a ∧ (s.kb.closed = true ∨ rest = [])) ∧
     (∃ rest, s.b.accepted = s.a.received ++ s.ka.inq ++ rest ++ pending s.b ∧ (s.ka.closed = true ∨ rest = [])) := by
   intro s
-  obtain ⟨⟨a1, _, ⟨r1, e1, c1⟩, _⟩, ⟨b1, _, ⟨r2, e2, c2⟩, _⟩⟩ := good_run evs _ (good_start p ha hb ra rb)
+  obtain ⟨⟨a1, _, ⟨r1, e1, c1⟩, _⟩, ⟨b1, _, ⟨r2, e2, c2⟩, _⟩⟩ := good_run evs _ (good_start p ha hb ra rb da db wa wb)
   refine ⟨⟨r1, ?_, c1⟩, ⟨r2, ?_, c2⟩⟩
   · have := a1; simp only [Inv1, Sys.view] at this e1; rw [← this, e1]
   · have := b1; simp only [Inv1, Sys.view] at this e2; rw [← this, e2]
 
 /-- **The peer receives the bytes written, in order** — at any moment a prefix of them (all of them
     are still to come, or were dropped by an abort / a loss). -/
-theorem peer_receives_prefix_of_written (p : Params) (ha hb : Bool) (ra rb : List AppOp) (evs : List Ev) :
-    let s := run (start p ha hb ra rb) evs
+theorem peer_receives_prefix_of_written (p : Params) (ha hb : Bool) (ra rb : List AppOp) (da db : Script) (wa wb : List AppOp)
+    (evs : List Ev) :
+    let s := run (start p ha hb ra rb da db wa wb) evs
     s.b.received <+: s.a.accepted ∧ s.a.received <+: s.b.accepted := by
   intro s
-  obtain ⟨⟨r1, e1, _⟩, ⟨r2, e2, _⟩⟩ := stream_accounting p ha hb ra rb evs
+  obtain ⟨⟨r1, e1, _⟩, ⟨r2, e2, _⟩⟩ := stream_accounting p ha hb ra rb da db wa wb evs
   exact ⟨⟨s.kb.inq ++ r1 ++ pending s.a, by rw [e1]; simp only [List.append_assoc]; rfl⟩, ⟨s.ka.inq ++ r2 ++ pending s.b, by rw [e2]; simp only [List.append_assoc]; rfl⟩⟩
 
 /-- **connectionLost at most once per protocol**, on every schedule (double close, abort during close,
     reset while flushing, stale readiness reports on a dead transport, …). -/
-theorem connectionLost_at_most_once (p : Params) (ha hb : Bool) (ra rb : List AppOp) (evs : List Ev) :
-    let s := run (start p ha hb ra rb) evs
+theorem connectionLost_at_most_once (p : Params) (ha hb : Bool) (ra rb : List AppOp) (da db : Script) (wa wb : List AppOp)
+    (evs : List Ev) :
+    let s := run (start p ha hb ra rb da db wa wb) evs
     s.a.lost.length ≤ 1 ∧ s.b.lost.length ≤ 1 := by
   intro s
-  obtain ⟨⟨_, a3, _, _⟩, ⟨_, b3, _, _⟩⟩ := good_run evs _ (good_start p ha hb ra rb)
+  obtain ⟨⟨_, a3, _, _⟩, ⟨_, b3, _, _⟩⟩ := good_run evs _ (good_start p ha hb ra rb da db wa wb)
   simp only [Inv3, Sys.view] at a3 b3
   constructor
-  · show (run (start p ha hb ra rb) evs).a.lost.length ≤ 1
-    rw [a3]; by_cases h : (run (start p ha hb ra rb) evs).a.hasSocket = true <;> simp [h]
-  · show (run (start p ha hb ra rb) evs).b.lost.length ≤ 1
-    rw [b3]; by_cases h : (run (start p ha hb ra rb) evs).b.hasSocket = true <;> simp [h]
+  · show (run (start p ha hb ra rb da db wa wb) evs).a.lost.length ≤ 1
+    rw [a3]; by_cases h : (run (start p ha hb ra rb da db wa wb) evs).a.hasSocket = true <;> simp [h]
+  · show (run (start p ha hb ra rb da db wa wb) evs).b.lost.length ≤ 1
+    rw [b3]; by_cases h : (run (start p ha hb ra rb da db wa wb) evs).b.hasSocket = true <;> simp [h]
 
 /-- **Nothing after connectionLost**: once a protocol's connectionLost has been called, no continuation
     of the schedule delivers data to it or calls connectionLost again. -/
-theorem no_data_after_connectionLost (p : Params) (ha hb : Bool) (ra rb : List AppOp) (evs1 evs2 : List Ev) :
-    let s1 := run (start p ha hb ra rb) evs1
+theorem no_data_after_connectionLost (p : Params) (ha hb : Bool) (ra rb : List AppOp) (da db : Script)
+    (wa wb : List AppOp) (evs1 evs2 : List Ev) :
+    let s1 := run (start p ha hb ra rb da db wa wb) evs1
     let s2 := run s1 evs2
     (s1.a.lost ≠ [] → s2.a.received = s1.a.received ∧ s2.a.lost = s1.a.lost) ∧
     (s1.b.lost ≠ [] → s2.b.received = s1.b.received ∧ s2.b.lost = s1.b.lost) := by
   intro s1 s2
-  obtain ⟨⟨_, a3, _, _⟩, ⟨_, b3, _, _⟩⟩ := good_run evs1 _ (good_start p ha hb ra rb)
+  obtain ⟨⟨_, a3, _, _⟩, ⟨_, b3, _, _⟩⟩ := good_run evs1 _ (good_start p ha hb ra rb da db wa wb)
   simp only [Inv3, Sys.view] at a3 b3
   constructor
   · intro hl
@@ -145,11 +179,43 @@ theorem done_from_doWrite_only_after_flush (p : Params) (v : View) (n : Nat)
     v.c.disconnecting = true ∧ pending (doWrite p v n).2.c = [] :=
   doWrite_done p v n hd
 
+/-- **A CONNECTION_DONE answered by `doWrite` is reported as `connectionLost(ConnectionDone)`** — whatever else the
+    readiness report carried.  If the `doRead` part of the report (when IN is set) returned nothing and the `doWrite`
+    part answers CONNECTION_DONE (loseConnection was requested — possibly re-entrantly, by the very `dataReceived`
+    of this report — and the flush is complete), the dispatch calls `connectionLost`: the protocol is told
+    ConnectionDone now, `readConnectionLost` is NOT called, the socket is closed. -/
+theorem done_from_doWrite_is_connectionLost (p : Params) (v : View) (inE : Bool) (nr nw : Nat)
+    (hr : (if inE then doRead p v nr else (none, v)).1 = none)
+    (hd : (doWrite p (if inE then doRead p v nr else (none, v)).2 nw).1 = some .done)
+    (hs : (doWrite p (if inE then doRead p v nr else (none, v)).2 nw).2.c.hasSocket = true) :
+    let v1 := (doWrite p (if inE then doRead p v nr else (none, v)).2 nw).2
+    let v' := readThenWrite p v inE true nr nw
+    v'.c.lost = v1.c.lost ++ [.done] ∧ v'.c.readLost = v1.c.readLost ∧ v'.c.hasSocket = false ∧ v'.k.closed = true := by
+  intro v1 v'
+  have e : v' = connLost { v1 with c := { v1.c with reading := false, writing := false } } .done := by
+    show readThenWrite p v inE true nr nw = _
+    unfold readThenWrite
+    simp only [hr, hd, if_true]
+    simp [disconnectSelectable]
+    rfl
+  rw [e]
+  simp [connLost, hs, kClose, v1]
+
+/-- **A requested close is never forgotten.**  In every state of every run — any schedule, any protocol scripts,
+    re-entrant calls from dataReceived / readConnectionLost / writeConnectionLost included — a live transport on
+    which loseConnection is pending (and which is not being aborted) is registered for writing and not for
+    reading: the doWrite that completes the flush will run and its CONNECTION_DONE becomes connectionLost
+    (`done_from_doWrite_is_connectionLost`). -/
+theorem close_never_forgotten (p : Params) (ha hb : Bool) (ra rb : List AppOp) (da db : Script) (wa wb : List AppOp)
+    (evs : List Ev) :
+    let s := run (start p ha hb ra rb da db wa wb) evs
+    (s.a.hasSocket = true → s.a.disconnecting = true → s.a.aborting = false → s.a.writing = true ∧ s.a.reading = false) ∧
+    (s.b.hasSocket = true → s.b.disconnecting = true → s.b.aborting = false → s.b.writing = true ∧ s.b.reading = false) :=
+  armedS_run evs _ ⟨fun _ h _ => by simp [Sys.init, Conn.fresh] at h, fun _ h _ => by simp [Sys.init, Conn.fresh] at h⟩
+
 
 /-! ### the liveness / clean-close half, under the one-closer discipline -/
-
-/-- the peer of `w` -/
-abbrev peer (w : Side) : Side := swapSide w
+set_option linter.unusedSimpArgs false
 
 /-- **Cross-endpoint invariants (loseConnection).**  In every state a disciplined schedule reaches after the
     close: no RST, FIN only after the flush, the peer's socket closes only after EOF, nothing discarded,
@@ -159,8 +225,9 @@ theorem discipline_invariants_lose (p : Params) (hp : 0 < p.sendLimit) (hc : 0 <
     (hpre : ∀ ev ∈ pre, preEv .A ev = true) (hpost : ∀ ev ∈ post, noise ev = true)
     (hrd : (run (start p ha hb ra rb) pre).b.reading = true) :
     let s := run (start p ha hb ra rb) (pre ++ .app .A .lose :: post)
-    DiscFacts s.a s.b s.ka s.kb :=
-  lose_facts false _ _ _ _ (lose_A p hp hc ha hb ra rb hcfg pre post hpre hpost hrd).1
+    DiscFacts s.a s.b s.ka s.kb := by
+  simp only [run_start0, runFair_start0] at *
+  exact discipline_invariants_lose0 p hp hc ha hb ra rb hcfg pre post hpre hpost hrd
 
 /-- **Cross-endpoint invariants (half-close).**  As above; here each socket closes only after EOF. -/
 theorem discipline_invariants_half (p : Params) (hp : 0 < p.sendLimit) (hc : 0 < p.cap) (ha hb : Bool)
@@ -169,22 +236,25 @@ theorem discipline_invariants_half (p : Params) (hp : 0 < p.sendLimit) (hc : 0 <
     (hra : (run (start p ha hb ra rb) pre).a.reading = true)
     (hrd : (run (start p ha hb ra rb) pre).b.reading = true) :
     let s := run (start p ha hb ra rb) (pre ++ .app .A .loseWrite :: post)
-    DiscFacts s.a s.b s.ka s.kb ∧ (s.ka.closed = true → s.ka.inFin = true) :=
-  half_facts _ _ _ _ (half_A p hp hc ha hb ra rb hcfa hcfg pre post hpre hpost hra hrd).1
+    DiscFacts s.a s.b s.ka s.kb ∧ (s.ka.closed = true → s.ka.inFin = true) := by
+  simp only [run_start0, runFair_start0] at *
+  exact discipline_invariants_half0 p hp hc ha hb ra rb hcfa hcfg pre post hpre hpost hra hrd
 
 /-- **Pending bytes ⇒ writer registered**, in every state before the close operation. -/
 theorem writer_registered_before_close (p : Params) (hp : 0 < p.sendLimit) (ha hb : Bool) (ra rb : List AppOp)
     (pre : List Ev) (hpre : ∀ ev ∈ pre, preEv .A ev = true) :
     let s := run (start p ha hb ra rb) pre
-    (pending s.a ≠ [] → s.a.writing = true) ∧ pending s.b = [] :=
-  have h := P0_run pre _ (by simpa [fresh, Sys.init] using hp) hpre (P0_fresh p ha hb ra rb)
-  ⟨h.1, h.2.2.2.2.2.2.2.1⟩
+    (pending s.a ≠ [] → s.a.writing = true) ∧ pending s.b = [] := by
+  simp only [run_start0, runFair_start0] at *
+  exact writer_registered_before_close0 p hp ha hb ra rb pre hpre
 
-/-- **The progress measure.**  A fair round started in a non-quiescent state of a disciplined run (closer `w`)
+/-- **The progress measure.**  A fair round started in a non-quiescent state of a disciplined run (closer `w`;
+    `NoReactS`: as in every state of a disciplined run, no dataReceived / writeConnectionLost script is armed)
     strictly decreases `mu` and stays inside the discipline's invariant. -/
-theorem fair_round_decreases_measure (w : Side) (s : Sys) (h : FInvW w s) (hq : s.quiescent = false) :
-    FInvW w (run s fairRound) ∧ mu (run s fairRound) < mu s :=
-  fairRound_dec (FInvW w) (roundOK_W w) s h hq
+theorem fair_round_decreases_measure (w : Side) (s : Sys) (h : FInvW w s) (hn : NoReactS s) (hq : s.quiescent = false) :
+    (FInvW w (run s fairRound) ∧ NoReactS (run s fairRound)) ∧ mu (run s fairRound) < mu s := by
+  rw [run_eq_run0 _ s hn]
+  exact ⟨⟨(fair_round_decreases_measure0 w s h hq).1, noReactS_run0 _ s hn⟩, (fair_round_decreases_measure0 w s h hq).2⟩
 
 /-- **Orderly close, any quiescent state**: whatever readiness reports follow the loseConnection, if the system
     is at rest then both protocols were told ConnectionDone exactly once and the reader has every byte. -/
@@ -194,8 +264,9 @@ theorem loseConnection_at_rest (p : Params) (hp : 0 < p.sendLimit) (hc : 0 < p.c
     (hrd : (connOf (run (start p ha hb ra rb) pre) (peer w)).reading = true) :
     let s := run (start p ha hb ra rb) (pre ++ .app w .lose :: post)
     s.quiescent = true → s.a.lost = [.done] ∧ s.b.lost = [.done] ∧ s.b.received = s.a.accepted ∧
-      s.a.received = s.b.accepted :=
-  lose_any p hp hc w ha hb ra rb hcfg pre post hpre hpost hrd
+      s.a.received = s.b.accepted := by
+  simp only [run_start0, runFair_start0] at *
+  exact loseConnection_at_rest0 p hp hc w ha hb ra rb hcfg pre post hpre hpost hrd
 
 /-- **Orderly close, liveness**: the fair completion (`runFair`, fuel ≥ `mu`) of a disciplined schedule with
     loseConnection is quiescent, each protocol's connectionLost was called exactly once with ConnectionDone, and
@@ -209,15 +280,8 @@ theorem loseConnection_clean_close (p : Params) (hp : 0 < p.sendLimit) (hr : 0 <
     let s := runFair fuel (run (start p ha hb ra rb) (pre ++ .app w .lose :: post))
     s.quiescent = true ∧ s.a.lost = [.done] ∧ s.b.lost = [.done] ∧ s.b.received = s.a.accepted ∧
       s.a.received = s.b.accepted := by
-  intro s
-  have hI := finv_lose p hp hr hc w ha hb ra rb hcfg pre post hpre hpost hrd
-  have hq := (runFair_quiescent _ (roundOK_W w) fuel _ hI hf).1
-  obtain ⟨post', hn, e⟩ := runFair_after fuel (start p ha hb ra rb) pre post (.app w .lose) hpost
-  have hq' : (run (start p ha hb ra rb) (pre ++ .app w .lose :: post')).quiescent = true := by rw [← e]; exact hq
-  have := lose_any p hp hc w ha hb ra rb hcfg pre post' hpre hn hrd hq'
-  show s.quiescent = true ∧ _
-  rw [show s = run (start p ha hb ra rb) (pre ++ .app w .lose :: post') from e]
-  exact ⟨hq', this⟩
+  simp only [run_start0, runFair_start0] at *
+  exact loseConnection_clean_close0 p hp hr hc w ha hb ra rb hcfg pre post hpre hpost hrd fuel hf
 
 /-- **Half-close, any quiescent state.** -/
 theorem halfClose_at_rest (p : Params) (hp : 0 < p.sendLimit) (hc : 0 < p.cap) (w : Side) (ha hb : Bool)
@@ -229,8 +293,9 @@ theorem halfClose_at_rest (p : Params) (hp : 0 < p.sendLimit) (hc : 0 < p.cap) (
     (hrb : (run (start p ha hb ra rb) pre).b.reading = true) :
     let s := run (start p ha hb ra rb) (pre ++ .app w .loseWrite :: post)
     s.quiescent = true → s.a.lost = [.done] ∧ s.b.lost = [.done] ∧ s.b.received = s.a.accepted ∧
-      s.a.received = s.b.accepted :=
-  half_any p hp hc w ha hb ra rb hcfg pre post hpre hpost hra hrb
+      s.a.received = s.b.accepted := by
+  simp only [run_start0, runFair_start0] at *
+  exact halfClose_at_rest0 p hp hc w ha hb ra rb hcfg pre post hpre hpost hra hrb
 
 /-- **Half-close, liveness**: after loseWriteConnection the fair completion is quiescent, both reasons are
     ConnectionDone, the peer got everything the initiator wrote and the initiator got the whole reply. -/
@@ -245,16 +310,8 @@ theorem halfClose_clean_close (p : Params) (hp : 0 < p.sendLimit) (hr : 0 < p.re
     let s := runFair fuel (run (start p ha hb ra rb) (pre ++ .app w .loseWrite :: post))
     s.quiescent = true ∧ s.a.lost = [.done] ∧ s.b.lost = [.done] ∧ s.b.received = s.a.accepted ∧
       s.a.received = s.b.accepted := by
-  intro s
-  have hI := finv_half p hp hr hc w ha hb ra rb hcfg pre post hpre hpost hra hrb
-  have hq := (runFair_quiescent _ (roundOK_W w) fuel _ hI hf).1
-  obtain ⟨post', hn, e⟩ := runFair_after fuel (start p ha hb ra rb) pre post (.app w .loseWrite) hpost
-  have hq' : (run (start p ha hb ra rb) (pre ++ .app w .loseWrite :: post')).quiescent = true := by
-    rw [← e]; exact hq
-  have := half_any p hp hc w ha hb ra rb hcfg pre post' hpre hn hra hrb hq'
-  show s.quiescent = true ∧ _
-  rw [show s = run (start p ha hb ra rb) (pre ++ .app w .loseWrite :: post') from e]
-  exact ⟨hq', this⟩
+  simp only [run_start0, runFair_start0] at *
+  exact halfClose_clean_close0 p hp hr hc w ha hb ra rb hcfg pre post hpre hpost hra hrb fuel hf
 
 /-- **Abort, any quiescent state.** -/
 theorem abortConnection_at_rest (p : Params) (hp : 0 < p.sendLimit) (w : Side) (ha hb : Bool) (ra rb : List AppOp)
@@ -262,8 +319,9 @@ theorem abortConnection_at_rest (p : Params) (hp : 0 < p.sendLimit) (w : Side) (
     (hpre : ∀ ev ∈ pre, preEv w ev = true) (hpost : ∀ ev ∈ post, noise ev = true)
     (hrd : (connOf (run (start p ha hb ra rb) pre) (peer w)).reading = true) :
     let s := run (start p ha hb ra rb) (pre ++ .app w .abort :: post)
-    s.quiescent = true → (connOf s w).lost = [.aborted] ∧ (connOf s (peer w)).lost = [.lost] :=
-  abort_any p hp w ha hb ra rb pre post hpre hpost hrd
+    s.quiescent = true → (connOf s w).lost = [.aborted] ∧ (connOf s (peer w)).lost = [.lost] := by
+  simp only [run_start0, runFair_start0] at *
+  exact abortConnection_at_rest0 p hp w ha hb ra rb pre post hpre hpost hrd
 
 /-- **Abort, liveness**: after abortConnection the fair completion is quiescent; the aborting side's protocol
     was told ConnectionAborted (once), the other side exactly one reason (ConnectionLost); what the reader got is
@@ -276,16 +334,8 @@ theorem abortConnection_close (p : Params) (hp : 0 < p.sendLimit) (hr : 0 < p.re
     let s := runFair fuel (run (start p ha hb ra rb) (pre ++ .app w .abort :: post))
     s.quiescent = true ∧ (connOf s w).lost = [.aborted] ∧ (connOf s (peer w)).lost = [.lost] ∧
       s.b.received <+: s.a.accepted ∧ s.a.received <+: s.b.accepted := by
-  intro s
-  have hI := finv_abort p hp hr w ha hb ra rb pre post hpre hpost hrd
-  have hq := (runFair_quiescent _ (roundOK_W w) fuel _ hI hf).1
-  obtain ⟨post', hn, e⟩ := runFair_after fuel (start p ha hb ra rb) pre post (.app w .abort) hpost
-  have hq' : (run (start p ha hb ra rb) (pre ++ .app w .abort :: post')).quiescent = true := by rw [← e]; exact hq
-  have := abort_any p hp w ha hb ra rb pre post' hpre hn hrd hq'
-  have hpre' := peer_receives_prefix_of_written p ha hb ra rb (pre ++ .app w .abort :: post')
-  show s.quiescent = true ∧ _
-  rw [show s = run (start p ha hb ra rb) (pre ++ .app w .abort :: post') from e]
-  exact ⟨hq', this.1, this.2, hpre'⟩
+  simp only [run_start0, runFair_start0] at *
+  exact abortConnection_close0 p hp hr w ha hb ra rb pre post hpre hpost hrd fuel hf
 
 /-- **`accepted` is what was written.**  For a disciplined schedule with any close operation of side `w` whose
     protocol does not write from readConnectionLost: the closer's `accepted` is the concatenation of the bytes
@@ -296,8 +346,9 @@ theorem closer_accepted_is_written (p : Params) (hp : 0 < p.sendLimit) (w : Side
     (hpre : ∀ ev ∈ pre, preEv w ev = true) (hpost : ∀ ev ∈ post, noise ev = true) :
     let s := run (start p ha hb ra rb) (pre ++ .app w op :: post)
     (connOf s w).accepted = written w pre ∧
-    ((match w with | .A => noWrites hb rb | .B => noWrites ha ra) → (connOf s (peer w)).accepted = []) :=
-  accepted_any p hp w ha hb ra rb hcw pre post op hop hpre hpost
+    ((match w with | .A => noWrites hb rb | .B => noWrites ha ra) → (connOf s (peer w)).accepted = []) := by
+  simp only [run_start0, runFair_start0] at *
+  exact closer_accepted_is_written0 p hp w ha hb ra rb hcw pre post op hop hpre hpost
 
 /-- **loseConnection delivers exactly the bytes written** (closer on side A; side B is the mirror image): at the
     end of the fair completion B's protocol holds `written .A pre`, A's nothing, both were told ConnectionDone. -/
@@ -309,15 +360,8 @@ theorem loseConnection_delivers_written (p : Params) (hp : 0 < p.sendLimit) (hr 
     let s := runFair fuel (run (start p ha hb ra rb) (pre ++ .app .A .lose :: post))
     s.quiescent = true ∧ s.a.lost = [.done] ∧ s.b.lost = [.done] ∧ s.b.received = written .A pre ∧
       s.a.received = [] := by
-  intro s
-  have h := loseConnection_clean_close p hp hr hc .A ha hb ra rb hcfg pre post hpre hpost hrd fuel hf
-  obtain ⟨post', hn, e⟩ := runFair_after fuel (start p ha hb ra rb) pre post (.app .A .lose) hpost
-  have hacc := closer_accepted_is_written p hp .A ha hb ra rb hca pre post' .lose rfl hpre hn
-  have hs : s = run (start p ha hb ra rb) (pre ++ .app .A .lose :: post') := e
-  obtain ⟨h1, h2, h3, h4, h5⟩ := h
-  refine ⟨h1, h2, h3, ?_, ?_⟩
-  · rw [show s.b.received = s.a.accepted from h4, hs]; exact hacc.1
-  · rw [show s.a.received = s.b.accepted from h5, hs]; exact hacc.2 (closeOk_noWrites hb rb hcfg)
+  simp only [run_start0, runFair_start0] at *
+  exact loseConnection_delivers_written0 p hp hr hc ha hb ra rb hca hcfg pre post hpre hpost hrd fuel hf
 
 /-- **Half-close delivers exactly the bytes written** to the peer (closer on side A); what the initiator receives
     is exactly what the peer's reply was accepted as (`halfClose_clean_close`). -/
@@ -330,15 +374,63 @@ theorem halfClose_delivers_written (p : Params) (hp : 0 < p.sendLimit) (hr : 0 <
     let s := runFair fuel (run (start p ha hb ra rb) (pre ++ .app .A .loseWrite :: post))
     s.quiescent = true ∧ s.a.lost = [.done] ∧ s.b.lost = [.done] ∧ s.b.received = written .A pre ∧
       s.a.received = s.b.accepted := by
+  simp only [run_start0, runFair_start0] at *
+  exact halfClose_delivers_written0 p hp hr hc ha hb ra rb hcfa hcfg pre post hpre hpost hra hrb fuel hf
+
+/-! ### the close requested re-entrantly from dataReceived (request/response) -/
+
+/-- **Close from dataReceived — clean close** (responder on side A; side B is the mirror image).
+    `pre` is ANY schedule, with any protocol scripts, after which the system is in the request/response closing
+    situation `RR` (`ReqResp.lean`: both transports open, no FIN/RST, the requester B has flushed everything it
+    wrote, its last bytes sit unread in A's queue, A's dataReceived script has its last entry armed for exactly that
+    total: write a last reply `ws`, then `loseConnection()`; earlier replies may still be pending on A, its writer
+    registered).  Then ONE readiness report for A with IN and ANY other bits (`o`, `h`), any kernel byte counts that
+    let it read the queue — in particular IN|OUT where the `doWrite` of the same report completes the flush and
+    answers CONNECTION_DONE — followed by any readiness reports / delayed calls `post`: the fair completion is
+    quiescent, both protocols were told ConnectionDone exactly once, each side received exactly what the other wrote.
+
+    `_partial`: what is NOT proved is that a request/response discipline on `pre` (B writes requests, A replies from
+    dataReceived at thresholds below the total) establishes `RR` — `RR` is a hypothesis on the state `pre` reaches
+    (it is decidable on concrete schedules, see the examples below); everything from the closing report on is proved. -/
+theorem closeFromDataReceived_clean_close_partial (p : Params) (hp : 0 < p.sendLimit) (hr : 0 < p.recvMax)
+    (hc : 0 < p.cap) (ha hb : Bool) (ra rb : List AppOp) (da db : Script) (wa wb : List AppOp) (pre post : List Ev)
+    (ws : List AppOp) (o h : Bool) (nr nw : Nat)
+    (hrr : let s0 := run (start p ha hb ra rb da db wa wb) pre; RR s0.a s0.b s0.ka s0.kb ws)
+    (hfull : (run (start p ha hb ra rb da db wa wb) pre).ka.inq.length ≤ min nr p.recvMax)
+    (hpost : ∀ ev ∈ post, noise ev = true) (fuel : Nat)
+    (hf : mu (run (start p ha hb ra rb da db wa wb) (pre ++ .io .A true o h nr nw :: post)) ≤ fuel) :
+    let s := runFair fuel (run (start p ha hb ra rb da db wa wb) (pre ++ .io .A true o h nr nw :: post))
+    s.quiescent = true ∧ s.a.lost = [.done] ∧ s.b.lost = [.done] ∧ s.b.received = s.a.accepted ∧
+      s.a.received = s.b.accepted := by
   intro s
-  have h := halfClose_clean_close p hp hr hc .A ha hb ra rb ⟨hcfa, hcfg⟩ pre post hpre hpost hra hrb fuel hf
-  obtain ⟨post', hn, e⟩ := runFair_after fuel (start p ha hb ra rb) pre post (.app .A .loseWrite) hpost
-  have hacc := closer_accepted_is_written p hp .A ha hb ra rb (closeOk_noWrites ha ra hcfa) pre post' .loseWrite rfl
-    hpre hn
-  have hs : s = run (start p ha hb ra rb) (pre ++ .app .A .loseWrite :: post') := e
-  obtain ⟨h1, h2, h3, h4, h5⟩ := h
-  refine ⟨h1, h2, h3, ?_, h5⟩
-  rw [show s.b.received = s.a.accepted from h4, hs]; exact hacc.1
+  have hpp : (run (start p ha hb ra rb da db wa wb) pre).p = p := run_p' pre _
+  have hsplit : run (start p ha hb ra rb da db wa wb) (pre ++ .io .A true o h nr nw :: post) =
+      run (run (start p ha hb ra rb da db wa wb) pre) (.io .A true o h nr nw :: post) := by
+    simp [run, List.foldl_append]
+  obtain ⟨hL, hN, -⟩ := rr_run (run (start p ha hb ra rb da db wa wb) pre) (by rw [hpp]; exact hp) ws o h nr nw post hrr
+    (by rw [hpp]; exact hfull) hpost
+  rw [← hsplit] at hL hN
+  generalize hs1 : run (start p ha hb ra rb da db wa wb) (pre ++ .io .A true o h nr nw :: post) = s1 at hL hN hf
+  have hp1 : s1.p = p := by rw [← hs1]; exact run_p' _ _
+  have hI : FInv s1 := ⟨by rw [hp1]; exact hp, by rw [hp1]; exact hr, Or.inl ⟨false, hL⟩⟩
+  have hs : s = runFair0 fuel s1 := by
+    show runFair fuel (run (start p ha hb ra rb da db wa wb) (pre ++ .io .A true o h nr nw :: post)) = _
+    rw [hs1]; exact runFair_eq_runFair0 fuel s1 hN
+  obtain ⟨hq, hI'⟩ := runFair_quiescent FInv roundOK_FInv fuel s1 hI hf
+  obtain ⟨evs', hn', e'⟩ := runFair_eq_run fuel s1
+  have hL' : SysLose false (runFair0 fuel s1) := by
+    rw [e']; exact lose_run false evs' s1 (by rw [hp1]; exact hp) hn' hL
+  -- the stream invariant on the final state: it is a state of a run of the model from `start`
+  have hrun : runFair0 fuel s1 = run (start p ha hb ra rb da db wa wb) ((pre ++ .io .A true o h nr nw :: post) ++ evs') := by
+    rw [e', ← run_eq_run0 evs' s1 hN, ← hs1]; simp [run, List.foldl_append]
+  have hg := good_run ((pre ++ .io .A true o h nr nw :: post) ++ evs') _ (good_start p ha hb ra rb da db wa wb)
+  rw [← hrun] at hg
+  rw [hs]
+  have hq' := hq
+  simp only [Sys.quiescent, Bool.and_eq_true, Sys.view] at hq'
+  have hcp : (runFair0 fuel s1).p = p := by rw [e', run_p, hp1]
+  have h4 := lose_quiescent false (runFair0 fuel s1).p (by rw [hcp]; exact hc) _ _ _ _ hL' hq'.1 hq'.2
+  exact ⟨hq, L4_facts _ _ _ _ h4 hg.1.1 hg.2.1⟩
 
 /-! ### non-vacuity: concrete schedules (tiny kernel so that every write is partial) -/
 
@@ -404,5 +496,45 @@ example : written .A demoPre = [1, 2, 3, 4, 5, 6, 7, 8] := by decide
 /-- a non-quiescent disciplined state and its measure going down over one fair round -/
 example : let s := run (start tiny false false [] []) (demoPre ++ .app .A .lose :: [])
     s.quiescent = false ∧ mu (run s fairRound) < mu s := by decide
+
+/-! non-vacuity of the re-entrant part: the C15-2 witness.  The half-closeable server B answers request 1 ("A") with
+    "one" from dataReceived; request 2 ("B") arrives while "one" is still buffered; ONE report IN|OUT for B: its
+    dataReceived writes "two" and calls loseConnection, the doWrite of the same report flushes "onetwo" and answers
+    CONNECTION_DONE. -/
+def roomy : Params := { sendLimit := 64, recvMax := 16, cap := 32 }
+def rrScript : Script := [(1, [.write [111, 110, 101]]), (2, [.write [116, 119, 111], .lose])]
+def rrPre : List Ev :=
+  [.app .A (.write [65]), .io .A false true false 9 9, .io .B true false false 9 9, .app .A (.write [66]),
+   .io .A false true false 9 9]
+
+/-- after the closing report: connectionLost(ConnectionDone) delivered to B at once, no readConnectionLost, socket
+    closed; the client then sees "onetwo" and EOF -/
+example : let s := run (start roomy false true [] [.lose] [] rrScript) (rrPre ++ [.io .B true true false 99 99])
+    s.b.lost = [.done] ∧ s.b.readLost = 0 ∧ s.kb.closed = true ∧ s.ka.inq = [111, 110, 101, 116, 119, 111] ∧
+      s.ka.inFin = true := by decide
+example : let s := run (start roomy false true [] [.lose] [] rrScript) (rrPre ++ [.io .B true true false 99 99] ++ fairRound ++ fairRound)
+    s.quiescent = true ∧ s.a.lost = [.done] ∧ s.b.lost = [.done] ∧ s.a.received = [111, 110, 101, 116, 119, 111] ∧
+      s.b.received = [65, 66] := by decide
+/-- the hypotheses of `done_from_doWrite_is_connectionLost` hold for that report (IN set, doRead returns nothing,
+    doWrite answers CONNECTION_DONE) -/
+example : let v := (run (start roomy false true [] [.lose] [] rrScript) rrPre).view .B
+    (doRead roomy v 99).1 = none ∧ (doWrite roomy (doRead roomy v 99).2 99).1 = some .done ∧
+      (doRead roomy v 99).2.c.disconnecting = true := by decide
+/-- `RR` holds in a reachable state (responder on side A — the mirror image of the schedule above), with the earlier
+    reply still pending and the writer registered: the hypotheses of `closeFromDataReceived_clean_close_partial` are
+    satisfiable, and its conclusion is the non-trivial value computed here -/
+def rrPreA : List Ev := rrPre.map swapEv
+example : let s0 := run (start roomy true false [.lose] [] rrScript []) rrPreA
+    s0.a.onData = [((s0.a.received ++ s0.ka.inq).length, [.write [116, 119, 111]] ++ [.lose])] ∧ s0.ka.inq = [66] ∧
+      pending s0.a = [111, 110, 101] ∧ s0.a.writing = true ∧ s0.b.writing = false ∧ pending s0.b = [] ∧
+      s0.a.reading = true ∧ s0.b.reading = true ∧ s0.a.sent = s0.b.received ++ s0.kb.inq ∧
+      s0.b.sent = s0.a.received ++ s0.ka.inq := by decide
+example : let s := runFair 40 (run (start roomy true false [.lose] [] rrScript []) (rrPreA ++ .io .A true true false 99 99 :: []))
+    s.quiescent = true ∧ s.a.lost = [.done] ∧ s.b.lost = [.done] ∧ s.b.received = [111, 110, 101, 116, 119, 111] ∧
+      s.a.received = [65, 66] ∧ s.a.readLost = 0 := by decide
+/-- `close_never_forgotten` is not vacuous: between the loseConnection issued in dataReceived and the end of the
+    flush (tiny kernel: the flush takes several reports) the writer is registered -/
+example : let s := run (start tiny false true [] [.lose] [] rrScript) [.app .A (.write [65, 66]), .io .A false true false 9 9, .io .B true true false 9 1]
+    s.b.disconnecting = true ∧ s.b.hasSocket = true ∧ s.b.writing = true ∧ s.b.reading = false := by decide
 
 end TwistedProps.C15
